@@ -121,7 +121,7 @@ pub fn exec(song: &mut Song, tokens: &Vec<Token>) -> bool {
             TokenType::LoopBegin => {
                 let mut it = LoopItem::new();
                 it.start_pos = pos + 1;
-                it.count = var_extract(&t.data[0], song).to_i() as usize;
+                it.count = var_extract(&t.data[0], song).to_i().max(0) as usize; // a negative count is no count (not 2^64 - n passes)
                 // println!("loop={}", it.count);
                 loop_stack.push(it);
             },
